@@ -73,6 +73,15 @@ static inline _Bool Pt_eq(Pt a, Pt b) { return a.z == b.z; }
 typedef struct { size_t pos; size_t lo; size_t hi; } ApproxPos;
 typedef struct { size_t n; } PGMIndexT;   /* the inner PGMIndex: only reached through the contract of search */
 #define PGMV_INDEX_SEQUENCE(x) 0
+static inline uint32_t pgmv_bits_hi(uint64_t x) { return x == 0 ? 0 : 63 - __builtin_clzll(x); }   /* sdsl::bits::hi [A: same definition] */
+static const uint64_t pgmv_lo_set[65] = {0ULL,
+  0x1ULL,0x3ULL,0x7ULL,0xFULL,0x1FULL,0x3FULL,0x7FULL,0xFFULL,0x1FFULL,0x3FFULL,0x7FFULL,0xFFFULL,0x1FFFULL,0x3FFFULL,0x7FFFULL,0xFFFFULL,
+  0x1FFFFULL,0x3FFFFULL,0x7FFFFULL,0xFFFFFULL,0x1FFFFFULL,0x3FFFFFULL,0x7FFFFFULL,0xFFFFFFULL,0x1FFFFFFULL,0x3FFFFFFULL,0x7FFFFFFULL,0xFFFFFFFULL,
+  0x1FFFFFFFULL,0x3FFFFFFFULL,0x7FFFFFFFULL,0xFFFFFFFFULL,0x1FFFFFFFFULL,0x3FFFFFFFFULL,0x7FFFFFFFFULL,0xFFFFFFFFFULL,0x1FFFFFFFFFULL,0x3FFFFFFFFFULL,
+  0x7FFFFFFFFFULL,0xFFFFFFFFFFULL,0x1FFFFFFFFFFULL,0x3FFFFFFFFFFULL,0x7FFFFFFFFFFULL,0xFFFFFFFFFFFULL,0x1FFFFFFFFFFFULL,0x3FFFFFFFFFFFULL,0x7FFFFFFFFFFFULL,
+  0xFFFFFFFFFFFFULL,0x1FFFFFFFFFFFFULL,0x3FFFFFFFFFFFFULL,0x7FFFFFFFFFFFFULL,0xFFFFFFFFFFFFFULL,0x1FFFFFFFFFFFFFULL,0x3FFFFFFFFFFFFFULL,0x7FFFFFFFFFFFFFULL,
+  0xFFFFFFFFFFFFFFULL,0x1FFFFFFFFFFFFFFULL,0x3FFFFFFFFFFFFFFULL,0x7FFFFFFFFFFFFFFULL,0xFFFFFFFFFFFFFFFULL,0x1FFFFFFFFFFFFFFFULL,0x3FFFFFFFFFFFFFFFULL,
+  0x7FFFFFFFFFFFFFFFULL,0xFFFFFFFFFFFFFFFFULL};   /* sdsl::bits::lo_set [A: same table] */
 #define PGMV_INDEX_SEQUENCE0 0
 '''
 LAYOUT = ['vec:T', 'struct:MD', 'struct:RangeIterator']
